@@ -5,21 +5,22 @@ Driver for C04 (a case starts with `new`).  Everything after a `::` token is inf
 model only (the abstract view of what the implementation side builds from the concrete part);
 a trailing token starting with `#` is a label for the evidence histogram and is ignored.
 
-record  = <type> <names> <issued sec> <nsec> <expires sec> <nsec> <pk> <parent> <fp> <rawlen> <tbs> <haskey>
+record  = <type> <names> <issued sec> <nsec> <expires sec> <nsec> <pk> <parent> <fp> <rawlen> <tbs> <haskey> <signers>
+signers = `.` | pk,pk,…   the candidate public keys under which the harness' own Ed25519 check of this
+                          certificate's signature succeeds (this is the signature table `sv`)
 names   = `.` | t:hex,t:hex,…        name = none | t:hex       (hex label, `-` empty)
 
   new                                                                              -> ok
   reset                                          empty trust store                  -> ok
-  cert <i> <bytes> <seed|-> :: <record>          parse bytes into object i          -> <record>
+  cert <i> <bytes> <seed|-> <candidate keys> :: <record>   parse bytes into object i  -> <record>
   set <i> type <n> | parentof <j> | fpof <j> | issued <s> <ns> | expires <s> <ns>   -> ok
-  sig <pk> <tbs> :: <0|1>                        Ed25519 check, harness' own        -> 0 | 1
   add <i>                                        Store.AddCertificate               -> ok
   verify <i> <j|-> <name> <now s> <ns> <clock s> <ns>   Store.VerifyLeaf (`zero 0`: zero CurrentTime) -> accept | reject
   why                                            reason of the last verify (informational)
   vparent <i> <j>                                VerifyParent(i, j)                 -> ok | err
   match <i> <name>                               MatchesName                        -> 1 | 0
-  issue <i> <j> <type> <names> <seed> <s> <ns> <dur> :: <pk> <fp> <tbs>   issue(j, …) into object i -> <record> | err
-  issueleaf <i> <j> <names> <seed> <s> <ns> <dur> :: <pk> <fp> <tbs>      IssueLeafAt            -> <record> | err
+  issue <i> <j> <type> <names> <seed> <s> <ns> <dur> :: <pk> <fp> <tbs> <signers>   issue(j, …) into object i -> <record> | err
+  issueleaf <i> <j> <names> <seed> <s> <ns> <dur> :: <pk> <fp> <tbs> <signers>      IssueLeafAt  -> <record> | err
 -/
 namespace Driver.C04
 open Certs
@@ -27,19 +28,18 @@ open Certs
 structure Obj where
   cert : Cert
   hasKey : Bool
+  signers : List Nat
 
 structure St where
   objs : List (Nat × Obj) := []
   store : Store := []
   sigs : List (Nat × Nat) := []
-  pks : List Nat := []
-  tbss : List Nat := []
   last : Option Result := none
 
 def St.obj (st : St) (i : Nat) : Option Obj := List.lookup i st.objs
 def St.setObj (st : St) (i : Nat) (o : Obj) : St :=
   { st with objs := (i, o) :: st.objs.filter (fun e => e.1 != i),
-            pks := o.cert.pubKey :: st.pks, tbss := o.cert.tbs :: st.tbss }
+            sigs := o.signers.map (fun pk => (pk, o.cert.tbs)) ++ st.sigs }
 def St.sv (st : St) (pk tbs : Nat) : Bool := st.sigs.contains (pk, tbs)
 
 def name? (s : String) : Option Name :=
@@ -68,10 +68,15 @@ def showRecord (o : Obj) : String :=
   let c := o.cert
   " ".intercalate [toString c.ctype, showNames c.names, toString c.issuedAt.sec, toString c.issuedAt.nsec,
     toString c.expiresAt.sec, toString c.expiresAt.nsec, toString c.pubKey, toString c.parent, toString c.fp,
-    toString c.rawLen, toString c.tbs, if o.hasKey then "1" else "0"]
+    toString c.rawLen, toString c.tbs, if o.hasKey then "1" else "0",
+    if o.signers.isEmpty then "." else ",".intercalate (o.signers.map toString)]
+
+def signers? (s : String) : Option (List Nat) :=
+  if s = "." then some [] else (s.splitOn ",").mapM (·.toNat?)
 
 def record? : List String → Option Obj
-  | [t, ns, is, ins, es, ens, pk, par, fp, rl, tbs, hk] => do
+  | [t, ns, is, ins, es, ens, pk, par, fp, rl, tbs, hk, sg] => do
+    let sg ← signers? sg
     let t ← t.toNat?
     let ns ← names? ns
     let i ← time? is ins
@@ -84,7 +89,7 @@ def record? : List String → Option Obj
     let hk ← if hk = "1" then some true else if hk = "0" then some false else none
     if is = "zero" ∨ es = "zero" then none
     else some ⟨{ ctype := t, names := ns, issuedAt := i, expiresAt := e, pubKey := pk, parent := par, fp := fp,
-                 rawLen := rl, tbs := tbs }, hk⟩
+                 rawLen := rl, tbs := tbs }, hk, sg⟩
   | _ => none
 
 def splitOracle (ws : List String) : List String × List String :=
@@ -100,19 +105,25 @@ def seed? (s : String) : Option Bool :=
     | some b => if b.length = 32 then some true else none
     | none => none
 
-def issued (st : St) (i : Nat) (r : Option Cert) : St × String :=
+def cands? (s : String) : Option Unit :=
+  if s = "." then some () else
+  ((s.splitOn ",").mapM fun h => match fromHex h with
+    | some b => if b.length = 32 then some () else none
+    | none => none).map fun _ => ()
+
+def issued (st : St) (i : Nat) (sg : List Nat) (r : Option Cert) : St × String :=
   match r with
   | none => ({ st with objs := st.objs.filter (fun e => e.1 != i) }, "err")
-  | some c => (st.setObj i ⟨c, true⟩, showRecord ⟨c, true⟩)
+  | some c => (st.setObj i ⟨c, true, sg⟩, showRecord ⟨c, true, sg⟩)
 
 def step (st : St) (ws : List String) : St × String :=
   match splitOracle ws with
   | (["new"], []) => ({}, "ok")
   | (["reset"], []) => ({ st with store := [] }, "ok")
-  | (["cert", i, bytes, seed], rec) =>
-    match i.toNat?, fromHex bytes, seed? seed, record? rec with
-    | some i, some _, some _, some o => (st.setObj i o, showRecord o)
-    | _, _, _, _ => (st, "bad-op")
+  | (["cert", i, bytes, seed, cands], rec) =>
+    match i.toNat?, fromHex bytes, seed? seed, cands? cands, record? rec with
+    | some i, some _, some _, some _, some o => (st.setObj i o, showRecord o)
+    | _, _, _, _, _ => (st, "bad-op")
   | (["set", i, "type", n], []) =>
     match i.toNat?, n.toNat? with
     | some i, some n => match st.obj i with
@@ -142,15 +153,6 @@ def step (st : St) (ws : List String) : St × String :=
     | some i, some t => match st.obj i with
       | some o => if s = "zero" then (st, "bad-op") else (st.setObj i { o with cert := { o.cert with expiresAt := t } }, "ok")
       | none => (st, "bad-op")
-    | _, _ => (st, "bad-op")
-  | (["sig", pk, tbs], [v]) =>
-    match pk.toNat?, tbs.toNat? with
-    | some pk, some tbs =>
-      if st.pks.contains pk ∧ st.tbss.contains tbs then
-        if v = "1" then ({ st with sigs := (pk, tbs) :: st.sigs }, "1")
-        else if v = "0" then ({ st with sigs := st.sigs.filter (· != (pk, tbs)) }, "0")
-        else (st, "bad-op")
-      else (st, "bad-op")
     | _, _ => (st, "bad-op")
   | (["add", i], []) =>
     match i.toNat? with
@@ -188,23 +190,23 @@ def step (st : St) (ws : List String) : St × String :=
       | some c => (st, if matchesName c.cert n then "1" else "0")
       | none => (st, "bad-op")
     | _, _ => (st, "bad-op")
-  | (["issue", i, j, t, names, seed, s, ns, dur], [pk, fp, tbs]) =>
+  | (["issue", i, j, t, names, seed, s, ns, dur], [pk, fp, tbs, sg]) =>
     match i.toNat?, j.toNat?, t.toNat?, names? names, seed? seed, time? s ns, dur.toInt? with
     | some i, some j, some t, some names, some true, some iat, some dur =>
-      match st.obj j, pk.toNat?, fp.toNat?, tbs.toNat? with
-      | some p, some pk, some fp, some tbs =>
+      match st.obj j, pk.toNat?, fp.toNat?, tbs.toNat?, signers? sg with
+      | some p, some pk, some fp, some tbs, some sg =>
         if s = "zero" ∨ t = 0 ∨ t > 3 then (st, "bad-op")
-        else issued st i (issue p.cert p.hasKey pk names t iat dur fp tbs)
-      | _, _, _, _ => (st, "bad-op")
+        else issued st i sg (issue p.cert p.hasKey pk names t iat dur fp tbs)
+      | _, _, _, _, _ => (st, "bad-op")
     | _, _, _, _, _, _, _ => (st, "bad-op")
-  | (["issueleaf", i, j, names, seed, s, ns, dur], [pk, fp, tbs]) =>
+  | (["issueleaf", i, j, names, seed, s, ns, dur], [pk, fp, tbs, sg]) =>
     match i.toNat?, j.toNat?, names? names, seed? seed, time? s ns, dur.toInt? with
     | some i, some j, some names, some true, some iat, some dur =>
-      match st.obj j, pk.toNat?, fp.toNat?, tbs.toNat? with
-      | some p, some pk, some fp, some tbs =>
+      match st.obj j, pk.toNat?, fp.toNat?, tbs.toNat?, signers? sg with
+      | some p, some pk, some fp, some tbs, some sg =>
         if s = "zero" then (st, "bad-op")
-        else issued st i (issueLeafAt p.cert p.hasKey pk names iat dur fp tbs)
-      | _, _, _, _ => (st, "bad-op")
+        else issued st i sg (issueLeafAt p.cert p.hasKey pk names iat dur fp tbs)
+      | _, _, _, _, _ => (st, "bad-op")
     | _, _, _, _, _, _ => (st, "bad-op")
   | _ => (st, "bad-op")
 
